@@ -375,7 +375,12 @@ type cfgFault struct {
 
 func (w *Worker) configFaults(r *simrt.Rand) cfgFault {
 	rulesFile := w.job.RepoDir + "/checkers/testdata/_integration/ruleguard/rules.go"
-	switch r.Intn(6) {
+	switch r.Intn(7) {
+	case 6:
+		// a valid rule file first, then a pattern that matches nothing: loading
+		// has already made progress when the error arrives
+		p := "/gcsim-nonexistent/rules-*.go"
+		return cfgFault{Name: "rules-valid-then-pattern-without-match", Flags: map[string]string{"enable": "ruleguard", "disable": "", "@ruleguard.rules": rulesGlob() + "," + p}, Names: []string{p}}
 	case 0:
 		vs := []string{"abc", "1", "1.x", "go1", "1.2.3", "v1.20", "1.", ".5"}
 		v := vs[r.Intn(len(vs))]
